@@ -140,6 +140,11 @@ def to_coq(c):
         return ["RcIds %d [%s]" % (len(ids), "; ".join(str(x) for x in ids))]
     if s == "e2e":
         return addr_terms(c["e2e"])
+    if s == "regen":
+        return [office_term(c["regen"]["office"])]
+    if s == "race":
+        ids = sorted(c["race"]["ids"])
+        return ["RcIds %d [%s]" % (len(ids), "; ".join(str(x) for x in ids))]
     return []
 
 
@@ -241,10 +246,43 @@ def oracle_e2e(e):
     return None
 
 
+def oracle_race(r):
+    if r["crossed"]:
+        return ("race-mailbox-crossed", "%d dials and %d forgers racing on one office: %s"
+                % (r["dials"], r["forgers"], r["crossed"][0]))
+    if r["forged_ok"]:
+        return ("race-forged-accepted", "%d deliveries with a wrong key were accepted" % r["forged_ok"])
+    if sorted(r["ids"]) != list(range(r["dials"])):
+        return ("race-id-reused", "concurrent dials got ids %s" % sorted(r["ids"])[:20])
+    bad = [g for g in r["got"] if not g.isdigit()]
+    if bad:
+        return ("race-dial-starved", "a dial did not receive the connection made for it: %s" % bad[:5])
+    if r["left"]:
+        return ("race-box-leaked", "%d boxes still filed after every dial cleaned up" % r["left"])
+    return None
+
+
+def oracle_regen(g):
+    ops = g["office"]
+    stale = ops[2]
+    if stale["res"] != "mismatch":
+        return ("stale-side-conn-accepted", "after re-registration a side connection carrying id %s and the old key %s "
+                "was answered %r by the office whose pending dial has id %s and key %s"
+                % (stale["id"], g["key1"], stale["res"], g["id"], g["key2"]))
+    rec = ops[4]
+    if rec["res"] != "conn" or rec.get("val") != ops[3]["tag"]:
+        return ("stale-side-conn-received", "the dial of the new registration received %r" % (rec,))
+    return None
+
+
 def impl_oracle(c):
     if c.get("crash"):
         return ("crash", "the code under test crashed: %s" % c["crash"][:300])
     s = c["stream"]
+    if s == "race":
+        return oracle_race(c["race"])
+    if s == "regen":
+        return oracle_regen(c["regen"])
     if s == "reject":
         r = c["reject"]
         if (r["name"] == "" or r["is_ip"]) and not r["rejected"]:
@@ -278,12 +316,32 @@ def run(ck):
     binp = ck.build_harness("c02")
     cases = []
     if binp:
-        rc, out, err = vlib.sh2([binp, "-seed", str(ck.seed), "-n", str(ncases), "-e2e", str(rounds)], timeout=2400)
+        cmd = [binp, "-seed", str(ck.seed), "-n", str(ncases), "-e2e", str(rounds)] + (["-big"] if ck.thorough else [])
+        rc, out, err = vlib.sh2(cmd, timeout=2400)
         if rc != 0:
             ck.broken.append({"what": "harness run failed", "detail": err[-1500:]})
         for line in out.splitlines():
             if line.startswith("{"):
                 cases.append(json.loads(line))
+
+    if ck.thorough and binp:
+        # the racing office stream again under the race detector
+        rbin = ck.build_harness("c02", race=True)
+        if rbin:
+            rc, out, err = vlib.sh2([rbin, "-child", "-seed", str(ck.seed), "-n", "150", "-only", "race"], timeout=1200)
+            nrace = 0
+            for line in out.splitlines():
+                if line.startswith("{"):
+                    c = json.loads(line)
+                    c["i"] += 1000000
+                    cases.append(c)
+                    nrace += 1
+            ck.coverage["race_detector_cases"] = nrace
+            if "DATA RACE" in err:
+                ck.violation("impl:data-race", "the Go race detector reported a data race while goroutines raced on the "
+                             "mail office", {"stderr": err[-3000:]})
+            elif rc != 0:
+                ck.broken.append({"what": "race-detector run failed", "detail": err[-1500:]})
 
     for c in cases:
         s = c["stream"]
